@@ -19,8 +19,8 @@
 EXTENDS Naturals, Integers, Sequences, FiniteSets, TLC, Json, IOUtils
 Rec == ndJsonDeserialize(IOEnv.TRACE)
 N == Len(Rec)
-VARIABLES l, bad, bit, count, first, ackedCur, asked, lastPn, cur
-vars == <<l, bad, bit, count, first, ackedCur, asked, lastPn, cur>>
+VARIABLES l, bad, bit, count, first, ackedCur, asked, lastPn, followed, deviations, cur
+vars == <<l, bad, bit, count, first, ackedCur, asked, lastPn, followed, deviations, cur>>
 e == Rec[l]
 Is(k) == l <= N /\ e.ev = k
 Flag(c, name) == IF c THEN {} ELSE {name}
@@ -29,36 +29,42 @@ Other(x) == IF x = "c" THEN "s" ELSE "c"
 
 Blank(v) == [x \in Sides |-> v]
 TInit == /\ l = 1 /\ bad = {} /\ bit = Blank(FALSE) /\ count = Blank(0) /\ first = Blank(0) /\ ackedCur = Blank(FALSE)
-         /\ asked = Blank(FALSE) /\ lastPn = Blank(-1) /\ cur = <<0>>
+         /\ asked = Blank(FALSE) /\ lastPn = Blank(-1) /\ followed = Blank(FALSE) /\ deviations = {} /\ cur = <<0>>
 Reset == /\ Is("Reset") /\ bad' = {} /\ bit' = Blank(FALSE) /\ count' = Blank(0) /\ first' = Blank(0)
-         /\ ackedCur' = Blank(FALSE) /\ asked' = Blank(FALSE) /\ lastPn' = Blank(-1) /\ cur' = <<e.run>> /\ l' = l + 1
+         /\ ackedCur' = Blank(FALSE) /\ asked' = Blank(FALSE) /\ lastPn' = Blank(-1) /\ followed' = Blank(FALSE) /\ deviations' = {}
+         /\ cur' = <<e.run>> /\ l' = l + 1
 
 \* fold the 1-RTT packets of one transmission of side x:
-\* <<bit, count, first pn of the current phase, ackedCur, asked, last pn, flags>>
-RECURSIVE Fold(_, _, _, _, _, _, _, _, _, _)
-Fold(pk, i, x, b, c, f, a, q, lp, conf) ==
-  IF i > Len(pk) THEN <<b, c, f, a, q, lp, {}>>
+\* <<bit, count, first pn of the current phase, ackedCur, asked, last pn, flags, last update was a follow, deviations>>
+\* (quinn used to let the application force the next update after one in which it merely FOLLOWED its
+\* peer as soon as the old keys were discarded, acknowledged or not: fixed, so no deviation is named.)
+RECURSIVE Fold(_, _, _, _, _, _, _, _, _, _, _)
+Fold(pk, i, x, b, c, f, a, q, lp, conf, fw) ==
+  IF i > Len(pk) THEN <<b, c, f, a, q, lp, {}, fw, {}>>
   ELSE LET p == pk[i]
            flip == p.kp # b
            follows == count[Other(x)] > c           \* the peer is already one phase ahead
+           early == flip /\ ~follows /\ c > 0 /\ ~a
            \* the first update needs a confirmed handshake, every later one an acknowledgement for a
            \* packet of the phase being left (RFC 9001 6.1)
            fl == Flag(p.pn > lp, "PacketNumberNotIncreasing")
-                 \cup (IF flip THEN Flag(follows \/ c = 0 \/ a, "KeyUpdateBeforeAcknowledged")
+                 \cup (IF flip THEN Flag(~early, "KeyUpdateBeforeAcknowledged")
                                     \cup Flag(follows \/ c > 0 \/ conf, "KeyUpdateBeforeHandshakeConfirmed")
                        ELSE {})
-           r == IF flip THEN Fold(pk, i + 1, x, p.kp, c + 1, p.pn, FALSE, FALSE, p.pn, conf)
-                        ELSE Fold(pk, i + 1, x, b, c, f, a, q, p.pn, conf)
-       IN <<r[1], r[2], r[3], r[4], r[5], r[6], r[7] \cup fl>>
+           dv == {}
+           r == IF flip THEN Fold(pk, i + 1, x, p.kp, c + 1, p.pn, FALSE, FALSE, p.pn, conf, follows)
+                        ELSE Fold(pk, i + 1, x, b, c, f, a, q, p.pn, conf, fw)
+       IN <<r[1], r[2], r[3], r[4], r[5], r[6], r[7] \cup fl, r[8], r[9] \cup dv>>
 
 Sent ==
   /\ Is("Sent")
   /\ LET x == e.side
-         r == Fold(e.pk, 1, x, bit[x], count[x], first[x], ackedCur[x], asked[x], lastPn[x], e.conf)
+         r == Fold(e.pk, 1, x, bit[x], count[x], first[x], ackedCur[x], asked[x], lastPn[x], e.conf, followed[x])
      IN
        /\ bit' = [bit EXCEPT ![x] = r[1]] /\ count' = [count EXCEPT ![x] = r[2]] /\ first' = [first EXCEPT ![x] = r[3]]
        /\ ackedCur' = [ackedCur EXCEPT ![x] = r[4]] /\ asked' = [asked EXCEPT ![x] = r[5]]
-       /\ lastPn' = [lastPn EXCEPT ![x] = r[6]]
+       /\ lastPn' = [lastPn EXCEPT ![x] = r[6]] /\ followed' = [followed EXCEPT ![x] = r[8]]
+       /\ deviations' = deviations \cup r[9]
        /\ bad' = bad \cup r[7]
             \cup Flag(r[2] <= count[Other(x)] + 1 /\ count[Other(x)] <= r[2] + 1, "PhasesMoreThanOneApart")
   /\ l' = l + 1 /\ UNCHANGED cur
@@ -69,12 +75,14 @@ Got ==
   /\ LET x == e.side
          hit == \E i \in 1 .. Len(e.acked) : e.acked[i][2] >= first[x] /\ e.acked[i][1] <= lastPn[x]
      IN ackedCur' = [ackedCur EXCEPT ![x] = ackedCur[x] \/ hit]
-  /\ bad' = bad /\ l' = l + 1 /\ UNCHANGED <<bit, count, first, asked, lastPn, cur>>
+  /\ bad' = bad /\ l' = l + 1 /\ UNCHANGED <<bit, count, first, asked, lastPn, followed, deviations, cur>>
 
 Asked == /\ Is("Asked") /\ asked' = [asked EXCEPT ![e.side] = asked[e.side] \/ e.est]
-         /\ bad' = bad /\ l' = l + 1 /\ UNCHANGED <<bit, count, first, ackedCur, lastPn, cur>>
+         /\ bad' = bad /\ l' = l + 1 /\ UNCHANGED <<bit, count, first, ackedCur, lastPn, followed, deviations, cur>>
 
-TNext == Reset \/ Sent \/ Got \/ Asked
+TNext == (Reset \/ Sent \/ Got \/ Asked)
+         /\ (deviations' \subseteq deviations
+             \/ PrintT(<<"KNOWN", deviations' \ deviations, "line", l, "run", cur>>))
 TraceSpec == TInit /\ [][TNext]_vars
 Watch == TLCSet(1, <<l, bad, cur>>) /\ bad = {}
 TraceAccepted ==
